@@ -74,6 +74,17 @@ fn check_text(
     sink += textwrap::indent(text, prefix).len();
     sink += textwrap::dedent(text).len();
     sink += display_width(text);
+    // the other two ways of passing options: a plain width (library
+    // defaults) and a reference
+    sink += textwrap::wrap(text, spec.width).len();
+    sink += textwrap::fill(text, spec.width).len();
+    sink += textwrap::refill(text, spec.width).len();
+    {
+        let o = spec.options();
+        sink += textwrap::wrap(text, &o).len();
+        sink += textwrap::fill(text, &o).len();
+        sink += textwrap::refill(text, &o).len();
+    }
     // wrap_columns: documented exceptions are zero columns and huge outputs
     if columns >= 1 {
         let mut cs = spec.clone();
@@ -295,7 +306,7 @@ impl Property for P {
         }
     }
     fn rule() -> String {
-        "text cases: adversarial token text (ESC fragments, CR/LF mixtures, NBSP/ZWSP/soft hyphen/combining/emoji, multi-byte boundaries) or arbitrary string x built-in options with all widths (0, 1.., 2^53, usize::MAX) and arbitrary usize penalties; every public function is called: wrap, fill, fill_inplace, unfill, refill (on the raw text and on fill's output), indent, dedent, wrap_columns (1..8 columns, width capped at 10^4, multi-byte gaps), display_width, find_words (both separators), split_words (both built-in splitters), split_points, break_words and Word::break_apart (limits 0,1,generated,usize::MAX), wrap_first_fit and WrapAlgorithm::wrap on the word list. fragment cases: arbitrary f64 incl. NaN and +-inf (no panic); usize-valued fragments/line widths/penalties incl. usize::MAX (wrap_optimal_fit must return Ok). Build has overflow-checks and debug-assertions on; a per-case 20 s watchdog with triple re-run decides hangs. non-trivial = text case reaching the general path (>= 2 lines, or a multi-byte or escape character) / fragment case with >= 2 fragments; distinct = distinct serialized cases".into()
+        "text cases: adversarial token text (ESC fragments, CR/LF mixtures, NBSP/ZWSP/soft hyphen/combining/emoji, multi-byte boundaries) or arbitrary string x built-in options with all widths (0, 1.., 2^53, usize::MAX) and arbitrary usize penalties; every public function is called: wrap, fill, refill with options by value, by reference and as a plain width; fill_inplace, unfill, refill (on the raw text and on fill's output), indent, dedent, wrap_columns (1..8 columns, width capped at 10^4, multi-byte gaps), display_width, find_words (both separators), split_words (both built-in splitters), split_points, break_words and Word::break_apart (limits 0,1,generated,usize::MAX), wrap_first_fit and WrapAlgorithm::wrap on the word list. fragment cases: arbitrary f64 incl. NaN and +-inf (no panic); usize-valued fragments/line widths/penalties incl. usize::MAX (wrap_optimal_fit must return Ok). Build has overflow-checks and debug-assertions on; a per-case 20 s watchdog with triple re-run decides hangs. non-trivial = text case reaching the general path (>= 2 lines, or a multi-byte or escape character) / fragment case with >= 2 fragments; distinct = distinct serialized cases".into()
     }
     fn assumptions() -> Vec<String> {
         vec![
